@@ -3,6 +3,7 @@ package checks
 import (
 	"fmt"
 	"go/types"
+	"os"
 	"sort"
 	"strings"
 	"time"
@@ -68,6 +69,27 @@ func (c *Ctx) runSeqWith(e seqEntry, cfg func(a *absint.Analyzer)) *E1Result {
 	}()
 	r.Undecided = append(r.Undecided, a.Undecided...)
 	r.Wall = time.Since(t0).Seconds()
+	if os.Getenv("JTVERIF_STEPS") != "" {
+		fmt.Printf("STEPS role %-65s %9d  %.1fs undecided=%d\n", shortFn(e.method), a.StepsUsed, r.Wall, len(r.Undecided))
+		type kv struct {
+			f *ssa.Function
+			n int
+		}
+		var top []kv
+		for f, n := range a.Analysed {
+			top = append(top, kv{f, n})
+		}
+		sort.Slice(top, func(i, j int) bool { return top[i].n > top[j].n })
+		for i := 0; i < len(top) && i < 8; i++ {
+			fmt.Printf("    runs %6d  %s\n", top[i].n, shortFn(top[i].f))
+		}
+	}
+	c.mu.Lock()
+	if a.StepsUsed > c.maxSteps {
+		c.maxSteps = a.StepsUsed
+		c.R.Notes["e1_max_steps_of_an_entry"] = fmt.Sprintf("%d of %d (%s)", a.StepsUsed, a.MaxSteps, shortFn(e.method))
+	}
+	c.mu.Unlock()
 	return r
 }
 
@@ -310,7 +332,7 @@ func runC10(c *Ctx) {
 	R.Require("E5.own-key", 1, "")
 	R.Require("E1.index", 20, "")
 	R.Require("E1.slice", 60, "")
-	R.Require("E1.nil", 1, "")
+	// (no minimum for E1.nil: whether a possibly-nil dereference exists at all depends on how the code is written)
 	R.Require("S.accept-loop", 6, "")
 	R.Require("S.role-closure", 40, "")
 	R.Explain = "Panic freedom of everything a TCP client can drive: the per-connection roles of both servers are interpreted abstractly from the state their constructors establish " +
